@@ -41,6 +41,8 @@ TrCall ==
     /\ latch' = (CASE Trace[l].op = "read" /\ Trace[l].err = "eof" -> "eof"
                    [] Trace[l].op = "reset" -> "none"
                    [] OTHER -> latch)
+    \* the lifecycle state the code reports after the call (verif accessor; "" when not logged) is the model's
+    /\ (Trace[l].st # "" => rs' = Trace[l].st)
     /\ LET r == Trace[l]
        IN  CASE r.op = "read" ->
                   \/ /\ Read(r.sz)
